@@ -11,12 +11,12 @@ use serde_json::json;
 
 pub fn run(cfg: &RunCfg) -> Ctx {
     let mut all = Ctx::new();
-    all.merge(par_cases(cfg, "declimit", cfg.n(16_000, 16 * 40_000), || (), |_, rng, ctx, _| dec_case(rng, ctx)));
-    all.merge(par_cases(cfg, "hugeprefix", cfg.n(2400, 16 * 4000), || (), |_, rng, ctx, _| huge_case(rng, ctx)));
-    all.merge(par_cases(cfg, "enclimit", cfg.n(12_000, 16 * 30_000), || (), |_, rng, ctx, _| enc_case(rng, ctx)));
+    all.merge(par_cases(cfg, "declimit", cfg.n(16_000, 16 * 160_000), || (), |_, rng, ctx, _| dec_case(rng, ctx)));
+    all.merge(par_cases(cfg, "hugeprefix", cfg.n(2400, 16 * 16_000), || (), |_, rng, ctx, _| huge_case(rng, ctx)));
+    all.merge(par_cases(cfg, "enclimit", cfg.n(12_000, 16 * 120_000), || (), |_, rng, ctx, _| enc_case(rng, ctx)));
     #[cfg(feature = "full")]
     if !small() {
-        all.merge(par_cases(cfg, "plumbing", cfg.n(1500, 16 * 3000), || (), |_, rng, ctx, i| plumbing_case(rng, ctx, i)));
+        all.merge(par_cases(cfg, "plumbing", cfg.n(1500, 16 * 6000), || (), |_, rng, ctx, i| plumbing_case(rng, ctx, i)));
         for k in ["plumb.server-decode", "plumb.client-decode", "plumb.server-encode", "plumb.client-encode", "plumb.server-decode-default", "plumb.client-decode-default", "plumb.rel.-1", "plumb.rel.0", "plumb.rel.1"] {
             all.floor(k, 3);
         }
